@@ -138,6 +138,41 @@ def translate():
     return rc == 0, out
 
 
+def coq_cone(roots, skip=()):
+    """the .v files (relative to coq/) that the given ones transitively Require, read from their Require lines"""
+    import re as _re
+    seen, todo = set(), list(roots)
+    while todo:
+        f = todo.pop()
+        if f in seen or f in skip or not os.path.exists(os.path.join(COQ, f)):
+            continue
+        seen.add(f)
+        for line in open(os.path.join(COQ, f)).read().split("."  + "\n"):
+            if "Require" in line:
+                for d, m in _re.findall(r"\b(Base|Gen|Model|Spec|Proofs|Props)\.(\w+)", line):
+                    todo.append(f"theories/{d}/{m}.v")
+    return seen
+
+
+def translate_for(prop):
+    """-> (ok, message): a kernel that no longer translates breaks the tie of the properties whose theorems or whose executable model
+    are built on the generated file; the other properties' obligations do not mention it"""
+    import re as _re
+    ok, out = translate()
+    if ok:
+        return ok, out
+    failed = _re.findall(r"^FAILED-GEN (\S+)", out, _re.M)
+    if not failed:
+        return False, out
+    # the executable model serves every harness; its wire commands that only one property's harness sends count for that property
+    only = {"theories/Model/JoinIO.v": "C14"}
+    cone = coq_cone([f"theories/Props/{prop}.v", f"theories/Props/{prop}Deep.v", "theories/Extract.v"], skip=[f for f, p in only.items() if p != prop])
+    relevant = [f for f in failed if f"theories/Gen/{f}" in cone]
+    if relevant:
+        return False, out
+    return True, "kernels outside this property's cone no longer translate (reported by the properties built on them): " + ", ".join(failed)
+
+
 def build_targets(targets, timeout=1500, jobs=NPROC):
     """build .vo targets (relative to coq/); returns dict target -> (ok, log)"""
     ensure_makefile()
